@@ -3,14 +3,14 @@ module verif
 go 1.25.0
 
 require (
+	github.com/andybalholm/brotli v1.2.2
 	github.com/anishathalye/porcupine v1.3.0
+	github.com/klauspost/compress v1.19.2
+	github.com/valyala/bytebufferpool v1.0.0
 	github.com/valyala/fasthttp v0.0.0
 )
 
 require (
-	github.com/andybalholm/brotli v1.2.2 // indirect
-	github.com/klauspost/compress v1.19.2 // indirect
-	github.com/valyala/bytebufferpool v1.0.0 // indirect
 	golang.org/x/crypto v0.55.0 // indirect
 	golang.org/x/net v0.58.0 // indirect
 	golang.org/x/sys v0.47.0 // indirect
